@@ -58,11 +58,11 @@ G_HOST = ["a.test", "A.Test", "a.test.", "1.2.3.4", "01.2.3.4", "1.2.3.4.5", "[:
           "É.Test.", "xn--9ca.test", "a\\b", "*", "-a-", "a" * 64 + ".test", ""]
 G_PORT = [None, "", "0", "80", "443", "080", "8080", "65535", "65536", "8a"]
 G_PATH = [None, "/", "/a/./b/../c", "/..", "/../..", "//", "/%7e%7E", "/%zz", "/é", "/a b",
-          "/a\\b", ";p"]
+          "/a\\b", ";p", "//n.test/b"]  # last: a path whose first segment is empty (looks like a network-path reference)
 G_QUERY = [None, "", "a=b", "?", "%41%zz", "é", "#"]
 G_FRAGMENT = [None, "", "f", "?#", "é"]
 # quick tier: the authority dimensions in full, a reduced path/query/fragment block ...
-Q_PATH = [None, "/", "/a/./b/../c", "/%zz"]
+Q_PATH = [None, "/", "/a/./b/../c", "/%zz", "//n.test/b"]
 Q_QUERY = [None, "", "a=b"]
 Q_FRAGMENT = [None, "f", "?#"]
 # ... plus the FULL path x query x fragment block behind these authorities
